@@ -207,6 +207,47 @@ def gen_file(rng, edge):
     return "".join(srcs)
 
 
+def dup_loops(src, rng):
+    """the same file with one loop of some function repeated VERBATIM elsewhere in that function (after it at the top level of the body,
+    or inside another loop's block): two loops with one text are two loops.  Returns None when the file has no loop."""
+    from pycparser import c_ast, c_generator
+    try:
+        ast = S.parse(src)
+    except Exception:
+        return None
+    cands = []
+    for f in ast.ext:
+        if not isinstance(f, c_ast.FuncDef) or not isinstance(f.body, c_ast.Compound):
+            continue
+        loops, blocks_ = [], [f.body]
+        stack = [f.body]
+        while stack:
+            n = stack.pop()
+            for _, c in n.children():
+                if isinstance(c, (c_ast.While, c_ast.DoWhile, c_ast.For)):
+                    loops.append(c)
+                    if isinstance(c.stmt, c_ast.Compound):
+                        blocks_.append(c.stmt)
+                stack.append(c)
+        if loops:
+            cands.append((loops, blocks_))
+    if not cands:
+        return None
+    loops, blocks_ = rng.choice(cands)
+    for _ in range(rng.choice([1, 1, 2])):
+        l = deepcopy(rng.choice(loops))
+        blk = rng.choice(blocks_)
+        items = list(blk.block_items or [])
+        items.insert(rng.randrange(len(items) + 1), l)
+        blk.block_items = items
+    try:
+        out = c_generator.CGenerator().visit(ast)
+        S.parse(out)
+        return out
+    except Exception:
+        return None
+
+
 def check_file(src, deep=True):
     """Returns (list of failing dicts, info dict).  deep: also run loop mode + 'alone' re-analysis."""
     from pymwp import Coverage, Variables, FindLoops, Analysis, LoopAnalysis, Result
@@ -503,6 +544,11 @@ def run(ctx):
         corpus = [c["src"] for c in vlib.corpus("C19") if c.get("kind") == "file"]
         for k in range(nfiles):
             src = corpus[k] if k < len(corpus) else gen_file(rng, rng.choice([0.0, 0.15, 0.3, 0.5]))
+            if k >= len(corpus) and k % 4 == 1:
+                src2 = dup_loops(src, rng)          # a loop repeated verbatim in its function
+                if src2:
+                    src = src2
+                    dist["with_repeated_loop"] = dist.get("with_repeated_loop", 0) + 1
             deep = (k % 3 == 0)
             fs, info = check_file(src, deep=deep)
             if info is None:
